@@ -962,7 +962,12 @@ func checkTokenTables(c *Ctx, m *cfgModel, rule string) {
 				lexStr = obj
 			}
 			if sig.Results().Len() == 1 && isStringT(sig.Results().At(0).Type()) && sig.Params().Len() == 0 {
-				lexIdent = obj
+				// several token readers may have this shape (a comment reader, say): the identifier lexer is the one
+				// that stops at the largest class of runes
+				if lexIdent == nil || len(m.comparedRunes(fd.Body)) > len(m.comparedRunes(m.decls[lexIdent].Body)) ||
+					(len(m.comparedRunes(fd.Body)) == len(m.comparedRunes(m.decls[lexIdent].Body)) && obj.Name() < lexIdent.Name()) {
+					lexIdent = obj
+				}
 			}
 		}
 	}
@@ -1070,12 +1075,46 @@ func checkTokenTables(c *Ctx, m *cfgModel, rule string) {
 	defaultIdentity := false
 	var special = map[rune]bool{}
 	lexFD := m.decls[lexStr]
-	for _, rc := range m.runeSwitches(lexFD.Body) {
+	// the unescape switch may live in a function of the package the string lexer calls (rune in, rune out)
+	lexBodies := []ast.Node{lexFD.Body}
+	ast.Inspect(lexFD.Body, func(n ast.Node) bool {
+		if ce, ok := n.(*ast.CallExpr); ok {
+			if fn, _, _ := m.callee(ce); fn != nil && m.decls[fn] != nil && fn != lexStr {
+				sig := fn.Type().(*types.Signature)
+				if sig.Params().Len() == 1 && sig.Results().Len() >= 1 {
+					if b, ok := sig.Params().At(0).Type().Underlying().(*types.Basic); ok && (b.Kind() == types.Int32 || b.Kind() == types.Uint8) {
+						lexBodies = append(lexBodies, m.decls[fn].Body)
+					}
+				}
+			}
+		}
+		return true
+	})
+	var lexSwitches []runeClause
+	for _, body := range lexBodies {
+		lexSwitches = append(lexSwitches, m.runeSwitches(body)...)
+	}
+	for _, rc := range lexSwitches {
 		var appended ast.Expr
 		ast.Inspect(rc.clause, func(k ast.Node) bool {
-			if ce, ok := k.(*ast.CallExpr); ok {
-				if _, b, _ := m.callee(ce); b == "append" && len(ce.Args) == 2 {
-					appended = ce.Args[1]
+			switch x := k.(type) {
+			case *ast.CallExpr:
+				fn, b, _ := m.callee(x)
+				if b == "append" && len(x.Args) == 2 {
+					appended = x.Args[1]
+				}
+				// a strings.Builder / bytes.Buffer accumulator
+				if fn != nil && len(x.Args) == 1 && (fn.Name() == "WriteRune" || fn.Name() == "WriteByte") {
+					appended = x.Args[0]
+				}
+			case *ast.ReturnStmt:
+				// the produced rune returned by an unescape helper
+				if len(x.Results) >= 1 && appended == nil {
+					if t := m.info.TypeOf(x.Results[0]); t != nil {
+						if b, ok := t.Underlying().(*types.Basic); ok && (b.Kind() == types.Int32 || b.Kind() == types.Uint8 || b.Kind() == types.UntypedRune) {
+							appended = x.Results[0]
+						}
+					}
 				}
 			}
 			return true
